@@ -9,7 +9,7 @@ DCT   {"t":"std","bt":BT,"bl":n,"enc":E|None,"hl":True|False|None,"mask":int|Non
       {"t":"leading","bt":BT,"bl":n,"enc":E,"hl":..}
       {"t":"paramlen","bt":BT,"key":<short name of LENGTH-KEY param>,"enc":E,"hl":..}
 COMPU {"c":"IDENTICAL"} | {"c":"LINEAR","n0":int,"n1":int,"d":int} |
-      {"c":"TEXTTABLE","rows":[[lo,hi,text],...]}
+      {"c":"TEXTTABLE","rows":[[lo,hi,text],...],"default":text|absent}
 DOP   {"k":"simple","id":..,"dct":DCT,"compu":COMPU,"pt":BT}
       {"k":"dtc","id","dct":DCT(std uint),"dtcs":[[name,code],...]}
       {"k":"struct","id","params":[PARAM..],"bs":None|int}
@@ -200,6 +200,8 @@ def i2p(dop, internal: Any) -> Any:
         for lo, hi, text in c["rows"]:
             if lo <= internal <= hi:
                 return text
+        if c.get("default") is not None:
+            return c["default"]
         raise RefReject("texttable: no row")
     raise RefUnsupported(c["c"])
 
@@ -481,7 +483,17 @@ def _mux_select(dop, value):
             if c["name"] == spec:
                 return c, content
         if dop.get("default") and dop["default"]["name"] == spec:
-            raise RefUnsupported("default case selected by name (key value not fixed by the description)")
+            # the description does not fix the key of a default case selected by name; odxtools documents
+            # "the smallest non-negative value that is not covered by any of the regular cases" (assumption)
+            used = set()
+            for c in dop["cases"]:
+                used |= set(range(c["lo"], c["hi"] + 1))
+            k = 0
+            while k in used:
+                k += 1
+            d = dict(dop["default"])
+            d["lo"] = k
+            return d, content
         raise RefReject("unknown case")
     if isinstance(spec, int) and not isinstance(spec, bool):
         for c in dop["cases"]:
